@@ -37,6 +37,52 @@ def sqrt8 (a : Nat) : Nat :=
   | none => 0x80
   | some x => if x < 0 then 0x80 else if x = 0 then 0 else fromFloat 8 0 (sqrtBits 8 23 x)
 
+/-! ### posit8 word-level arithmetic (posit_8_0.h), also the body of fast posit<8,0>::operator*=
+
+  `posit<8,0>::operator*=` (posit_8_0.hpp) calls `posit8_mulp8`; transcribed statement by statement. -/
+
+/-- posit8_decode_regime(bits, &remaining) for a non-zero magnitude: (m, remaining) -/
+def decodeRegime8 (bits : Nat) : Int × Nat :=
+  let rem0 := u8 (bits <<< 2)
+  if bits &&& 0x40 ≠ 0 then
+    let ones := runLen rem0 true 8          -- while (remaining >> 7) { ++m; remaining <<= 1 }
+    ((ones : Int), u8 (rem0 <<< ones))
+  else
+    let zeros := runLen rem0 false 8        -- m = -1; while (!(remaining >> 7)) { --m; remaining <<= 1 }
+    (-1 - (zeros : Int), u8 (rem0 <<< zeros) &&& 0x7F)
+
+/-- posit8_round(m, fraction) -/
+def round8 (m : Int) (fraction : Nat) : Nat :=
+  let scale : Nat := if m < 0 then (-m).toNat % 256 else (m + 1).toNat
+  let regime : Nat := if m < 0 then 0x40 >>> scale else u8 (0x7F - (0x7F >>> scale))
+  if scale > 6 then (if m < 0 then 1 else 0x7F)
+  else
+    let fr := (fraction &&& 0x3FFF) >>> scale
+    let finalF := u8 (fr >>> 8)
+    let bitN := fr &&& 0x80 ≠ 0
+    let bits := u8 (regime + finalF)
+    if bitN then
+      let more := if fr &&& 0x7F ≠ 0 then 1 else 0
+      u8 (bits + ((bits &&& 1) ||| more))
+    else bits
+
+/-- posit8_mulp8 -/
+def mulp8 (a b : Nat) : Nat :=
+  let a := u8 a; let b := u8 b
+  if a = 0x80 ∨ b = 0x80 then 0x80
+  else if a = 0 ∨ b = 0 then 0
+  else
+    let sign := (a &&& 0x80 ≠ 0) != (b &&& 0x80 ≠ 0)
+    let lhs := if a &&& 0x80 ≠ 0 then negW 8 a else a
+    let rhs := if b &&& 0x80 ≠ 0 then negW 8 b else b
+    let (mA, remA) := decodeRegime8 lhs
+    let (mB, remB) := decodeRegime8 rhs
+    let prod := (0x80 ||| remA) * (0x80 ||| remB)          -- uint16: at most 0xFF·0xFF
+    let scale := mA + mB
+    let (scale', prod') := if prod &&& 0x8000 ≠ 0 then (scale + 1, prod >>> 1) else (scale, prod)
+    let raw := round8 scale' prod'
+    if sign then negW 8 raw else raw
+
 /-! ### the C shim: marshal / unmarshal (c_api/shim/posit/posit_c_api.cpp:29-107)
   `marshal` copies `w` bits per byte (w = 8; w = 4 for posit4_t, one byte) of the C union into a bitblock, least significant
   byte first; `unmarshal` is the inverse loop. On encodings the pair is the identity (theorems in Props/C11). -/
